@@ -289,6 +289,7 @@ fn run_case(case: &Case, ctx: &Ctx) -> Result<Stats, Outcome> {
         held_advance: a.held_advance,
         abort_check: None,
         foreign_publisher_base: None,
+        prev_child_certs: Default::default(),
     };
     b.wm().hold_types = a.w().hold_types.clone();
     let mut target = target;
@@ -468,7 +469,45 @@ fn run_case(case: &Case, ctx: &Ctx) -> Result<Stats, Outcome> {
         }
         Err(f) => return Err(to_out(fail_to_bad(f, &format!("{what}: background tasks after recovery")))),
     }
-    let d_after = config_digest(a.w()).map_err(to_out)?;
+    let mut d_after = config_digest(a.w()).map_err(to_out)?;
+    // "in the audit log, the in-memory state and the published-object set alike": what the still-running
+    // instance holds in memory after a failed write is what a fresh instance reads from storage (every
+    // second case; the others go on with the running instance)
+    if !case.crash && !exited && fired && case.at % 2 == 0 {
+        a.apply(&Op::Restart).map_err(|f| match f {
+            Fail::Violation(e) => to_out(bad("c08-restart-fails", "open", format!("{what}: {e}"))),
+            f => to_out(fail_to_bad(f, "restart")),
+        })?;
+        let d_stored = config_digest(a.w()).map_err(|b| to_out((b.0, b.1, format!("{what}: after a restart: {}", b.2))))?;
+        if d_stored != d_after {
+            let keys: std::collections::BTreeSet<&String> = d_after.keys().chain(d_stored.keys()).collect();
+            let diff: Vec<String> = keys
+                .into_iter()
+                .filter(|k| d_after.get(*k) != d_stored.get(*k))
+                .map(|k| format!("{k}: in memory {} / from storage {}", d_after.get(k).cloned().unwrap_or(Value::Null), d_stored.get(k).cloned().unwrap_or(Value::Null)))
+                .collect();
+            return Err(Outcome::Violation {
+                clause: "c08-memory-differs-from-storage".into(),
+                key: format!("{}--{site_class}", target.kind()),
+                msg: format!("{what}: after the failed write the running instance shows a configuration that a fresh instance on the same storage does not: {diff:?}"),
+            });
+        }
+        stats.classes.push("memory_vs_storage_compared".into());
+        match settle(&mut a) {
+            Ok(()) => {}
+            Err(Fail::Violation(m)) if m.contains("sync_repo_") && site.contains("/cas/") && site.contains("command-") => {
+                let sig = format!("c08-presave-window:c08-background-does-not-settle--{}", if case.crash { "crash" } else { "failed-write" });
+                if ctx.strict || !ctx.is_known("C08", &sig) {
+                    return Err(to_out(bad("c08-background-does-not-settle", "sync-repo-task", format!("{what}: {m}"))));
+                }
+                crate::fw::soft_known(&sig, &format!("{what}: {m}"));
+                stats.classes.push("known_finding_stepped_over".into());
+                stuck = true;
+            }
+            Err(f) => return Err(to_out(fail_to_bad(f, &format!("{what}: background tasks after the restart")))),
+        }
+        d_after = config_digest(a.w()).map_err(to_out)?;
+    }
     // several commands in a row: a cut between them is a legitimate intermediate state
     let composite = matches!(target, Op::Attach { .. } | Op::CaAdd { .. } | Op::CaDelete { .. } | Op::ParentRemove { .. });
     // acknowledged => present; otherwise all or nothing
